@@ -180,6 +180,10 @@ def gen_book(rng, tier, far=False):
         pos = rng.randrange(1, len(order) + 1)      # never first: the chart needs a worksheet created before it
         order.insert(pos, wbspec.sheet(f'Chart{i}', chart=True))
     spec = {'sheets': order}
+    # hidden and very hidden worksheets are worksheets like any other (never the first one: a workbook needs a visible sheet)
+    for sh in order[1:]:
+        if not sh.get('chart') and rng.random() < 0.2:
+            sh['state'] = rng.choice(['hidden', 'veryHidden'])
     if not far and rng.random() < 0.35:
         # the size record of each worksheet part as other producers leave it (stale, minimal, generous, absent), or cells right of /
         # below the data that were looked at but never given a value: coordinates, values and sizes are those of the stored cells
